@@ -159,6 +159,21 @@ func walkAllOpts(c *Ctx, rule string, fn *ssa.Function, opts PathOpts, visit fun
 	if opts.Inline == nil && !opts.NoInline {
 		opts.Inline = localHelper
 	}
+	if opts.Inline != nil && opts.InlineDepth == 0 {
+		// the deepest inlining whose path count stays within the bound (dry runs), else none
+		opts.InlineDepth = -1
+		for _, d := range []int{2, 1} {
+			try := opts
+			try.InlineDepth = d
+			if _, ok := WalkPaths(fn, try, func(*Path) bool { return true }); ok {
+				opts.InlineDepth = d
+				break
+			}
+		}
+		if opts.InlineDepth < 0 {
+			opts.Inline, opts.InlineDepth = nil, 0
+		}
+	}
 	n, complete := WalkPaths(fn, opts, func(p *Path) bool { visit(p); return true })
 	if !complete {
 		c.Undecided(rule, FuncName(fn), fmt.Sprintf("path bound exceeded after %d paths", n))
@@ -299,9 +314,8 @@ func ownPathCount(fn *ssa.Function) int {
 	if n, ok := ownPathCache[fn]; ok {
 		return n
 	}
-	ownPathCache[fn] = 1000 // in progress (recursion): not inlinable
-	// counted with its own helpers inlined, so that nesting multiplies into the budget
-	n, complete := WalkPaths(fn, PathOpts{MaxPaths: 40, Inline: localHelper}, func(*Path) bool { return true })
+	// the helper's own paths (its callees opaque); nesting is bounded by PathOpts.InlineDepth
+	n, complete := WalkPaths(fn, PathOpts{MaxPaths: 40}, func(*Path) bool { return true })
 	if !complete {
 		n = 1000
 	}
